@@ -279,6 +279,79 @@ def rule_r6(chk, facts, u):
         raise AnalysisBroken('only %d ParIter normalisations found' % n)
 
 
+def rule_r7(chk, facts, u):
+    chk.rule('C20-R7', 'GetErrorPos() builds the position text of a diagnostic in a buffer it grows step by step, and the '
+             'bounded append/prepend helpers cut what does not fit: every non-constant capacity it requests with '
+             'ReallocStr() is the running length plus the text to add plus at least one byte for the terminator (constant '
+             'part of the request, including a constant start value of the running length, >= 1). Without the byte the '
+             'last character of a tag - the last digit of a line number - is dropped when the text ends exactly on the '
+             'allocation granule', min_instances=3)
+    f = u.funcs['GetErrorPos']
+    n = 0
+
+    def terms(e, out):
+        e = nocast(e)
+        if e[0] == 'ref':
+            e = nocast(e[1])
+        if is_assign(e) and e[1] == '=':
+            return terms(e[3], out)
+        if e[0] == 'b' and e[1] == '+':
+            terms(e[2], out)
+            terms(e[3], out)
+        else:
+            out.append(e)
+        return out
+
+    def const_defs(name):
+        cs = []
+        for b, i, ln, m in f.nodes():
+            if m[0] == 'decl' and m[1] == name and m[2] is not None and const_val(nocast(m[2])) is not None:
+                cs.append(const_val(nocast(m[2])))
+            if is_assign(m) and m[1] == '=' and nocast(m[2]) == ('l', name) and const_val(nocast(m[3])) is not None:
+                cs.append(const_val(nocast(m[3])))
+        return cs
+    for b, blk in f.blocks.items():
+        for idx, (ln, ex) in enumerate(blk['elems']):
+            if not (ex[0] == 'call' and callee_name(ex) == 'ReallocStr' and len(ex[2]) >= 2):
+                continue
+            size = nocast(ex[2][1])
+            if const_val(size) is not None:
+                continue
+            n += 1
+            ts = terms(size, [])
+            # a bare local assigned just before in the same block: look through it once
+            out = []
+            for t in ts:
+                if t[0] == 'l':
+                    prev = None
+                    for j in range(idx - 1, -1, -1):
+                        m = blk['elems'][j][1]
+                        if is_assign(m) and nocast(m[2]) == t:
+                            prev = m
+                            break
+                    if prev is not None and prev[1] == '=':
+                        out += terms(prev[3], [])
+                        continue
+                    if prev is not None and prev[1] == '+=':
+                        out += [t] + terms(prev[3], [])
+                        continue
+                out.append(t)
+            c = sum(const_val(t) for t in out if const_val(t) is not None)
+            for t in out:
+                if t[0] == 'l':
+                    cs = const_defs(t[1])
+                    if cs:
+                        c += min(cs)
+            ok = c >= 1
+            chk.ob('C20-R7', 'as.c:GetErrorPos:ReallocStr@%d' % n, ok, f.loc(ln),
+                   'request = %s, constant part %d' % (' + '.join(show(t) for t in out), c) if ok else
+                   'the capacity requested is %s: no byte for the terminating NUL. strmaxprep()/as_snprcatf() then cut the '
+                   'text to the capacity, so when running length + new text is a multiple of the allocation granule the last '
+                   'character of the tag (a digit of the line number, or the separator) is lost'
+                   % ' + '.join(show(t) for t in out))
+    return n
+
+
 def run(chk, facts, info):
     P = facts.program('asl')
     u = facts.unit('as.c')
@@ -288,6 +361,7 @@ def run(chk, facts, info):
     rule_r4(chk, facts, u, P, cons)
     rule_r5(chk, facts)
     rule_r6(chk, facts, u)
+    rule_r7(chk, facts, u)
     chk.note('Decided: callback slots of every input-tag constructor, CurrLine update in every line processor, EXPECT '
              'ordering, save/restore pairing of the position state, chain walk of the position reporter. Not decided: '
              'positions printed for concrete nestings.')
